@@ -103,6 +103,10 @@ def prepare(producer, workdir, old):
             json.dump(WIKI_CASE, f)
     if producer in ("render", "render_odf"):
         shutil.copy(os.path.join(os.environ["VERIF_SCRATCH_DIR"], "c20-collection.zip"), os.path.join(workdir, "collection.zip"))
+        if old:
+            # what a render killed inside its external PDF-merge step leaves in the output directory
+            with open(os.path.join(workdir, "final.pdf"), "wb") as f:
+                f.write(b"%PDF-1.4\n1 0 obj\n<< /Type /Catalog >>\nendobj\n% killed here")
     if old:
         ext = out.rsplit(".", 1)[1]
         if ext == "json":
@@ -311,9 +315,11 @@ def make_collection(scratch):
     fs.write_siteinfo(get_siteinfo("en"))
     mb = metabook.Collection(title="Book")
     mb.append_article("Alpha")
+    mb.append_article("Beta")        # two articles: the rl writer also builds a table of contents and merges it in
     fs.dump_json(metabook=mb)
     fs.nfo = {"format": "nuwiki", "base_url": "http://w.test/w/", "script_extension": ".php"}
-    fs.write_pages({"pages": {"1": {"title": "Alpha", "ns": 0, "revisions": [{"revid": 5, "*": "== Head ==\nalpha ''text'' here\n* item one\n* item two\n"}]}}})
+    fs.write_pages({"pages": {"1": {"title": "Alpha", "ns": 0, "revisions": [{"revid": 5, "*": "== Head ==\nalpha ''text'' here\n* item one\n* item two\n"}]},
+                              "2": {"title": "Beta", "ns": 0, "revisions": [{"revid": 6, "*": "== Second ==\nbeta text\n"}]}}})
     fs.write_redirects({})
     fs.write_licenses([])
     fs.write_authors()
